@@ -238,7 +238,7 @@ lint:
 
 cmp:
 	@boot=$$(mktemp) && $(BINDIR)/bootstrap-pigeon $(PIGEON_GRAMMAR) > $$boot && \
-	official=$$(mktemp) && $(BINDIR)/pigeon $(PIGEON_GRAMMAR) > $$official && \
+	official=$$(mktemp) && $(BINDIR)/pigeon -nolint $(PIGEON_GRAMMAR) > $$official && \
 	cmp $$boot $$official && \
 	unlink $$boot && \
 	unlink $$official
